@@ -393,3 +393,48 @@ def coverage(obs):
             "rule": "case = one operation history against the three app services (scripted histories first, then seeded random ones: admin API, tracker ages, end-user requests, agent list/fetch/respond by right/wrong/absent identities, scripted API-call failures, payloads around the 1,000,000-byte limits); distinct by hash of the (operation, answer) sequence; non-trivial when at least one request was relayed end to end",
             "samples": [{"op": r["op"], "obs": r["obs"]} for r in (obs["histories"][0][:3] if obs["histories"] else [])],
             "input_distribution": dict(hist), "timeout_scenario": obs.get("timeout")}
+
+
+def oracle_c18(h):
+    """Longest-prefix routing with own-before-shared and the 5-minute window, evaluated on each end-user request
+    against the ground truth read from the fake datastore just before the call."""
+    res = []
+    for row in h:
+        op, obs = row["op"], row["obs"]
+        if op["op"] != "ustart" or not op["user"] or op.get("faults") or "gt_backends" not in obs:
+            continue
+        if obs.get("outcome") == "returned" and obs.get("resp_tag"):
+            continue   # served from the GET cache after a successful lookup
+        path = op["url"].split("?")[0]
+        gt = obs["gt_backends"]
+
+        def best(cands):
+            m, owners = -1, []
+            for b in cands:
+                for p in b["prefixes"]:
+                    if path.startswith(p):
+                        if len(p) > m:
+                            m, owners = len(p), [b]
+                        elif len(p) == m:
+                            owners.append(b)
+            return owners
+        own = best([b for b in gt if b["euser"] == op["user"]])
+        cands = own if own else best([b for b in gt if b["euser"] == "allUsers"])
+        # ages within 3 s of the window are left to the model comparison (clock skew between driver and app)
+        if any(0 <= b["age_s"] and abs(b["age_s"] - 300) < 3 for b in cands):
+            continue
+        live = [b["id"] for b in cands if 0 <= b["age_s"] < 300]
+        got = obs.get("backend") if obs.get("outcome") == "stored" else None
+        rp = dict(_base(h, row), path=path, expected_one_of=live, candidates=[b["id"] for b in cands])
+        if got is None:
+            if obs.get("status") != 404 and obs.get("outcome") == "returned":
+                res.append(("lookup-failure-not-404", "no backend for %r %r but the answer was %s" % (op["user"], path, obs.get("status")), rp))
+            # a dead most-specific backend is answered 404 even if a less specific one is live: only complain when every candidate is live
+            if cands and len(live) == len(cands):
+                res.append(("live-backend-not-routed", "user %r path %r: backend(s) %s match and are live, the request was answered %s" % (op["user"], path, live, obs.get("status")), rp))
+        else:
+            if got not in [b["id"] for b in cands]:
+                res.append(("not-most-specific", "user %r path %r was routed to %r; the most specific matching backend(s): %s" % (op["user"], path, got, [b["id"] for b in cands]), rp))
+            elif got not in live:
+                res.append(("routed-to-dead-backend", "user %r path %r was routed to %r whose agent was last seen %.0f s ago" % (op["user"], path, got, [b["age_s"] for b in cands if b["id"] == got][0]), rp))
+    return res
